@@ -74,7 +74,7 @@ theorem closed_step {P : Prog} {v v' : SV} {evs : List Tr} (hi : ClosedInv v) (h
       · exact .inr (.inl (by rw [hev]; exact List.mem_append_right _ h1))
       · exact .inr (.inr (by rw [hev]; exact List.mem_append_right _ h1))
     · exact absurd h (by show v.nq ≠ v.nq + 1; omega)
-  | stutter | batch _ _ | halt _ _ | raise _ _ | kill _ | schedule _ | pushScr _ | replace _ _ | apprun _
+  | stutter | batch _ _ | halt _ _ | raise _ _ | kill _ | enqAct _ | schedule _ | pushScr _ | replace _ _ | apprun _
   | restore _ _ | pushModal _ | closeScreen _ _ | discard _ _ | identSkip _ _ _ =>
     rcases hm with ⟨h, _⟩ | ⟨_, h⟩
     · exact closed_keep hi h rfl hev
